@@ -205,6 +205,24 @@ impl<'a> Drive<'a> {
                         }
                         return Ok(());
                     }
+                    // a verdict that rests on a wall-clock wait (no response / not finished / not seen within N seconds) is only
+                    // reported if the SAME case gives it again: a real hang or loss is a function of the case, a starved
+                    // machine is not. An unconfirmed one is counted (class) and the search goes on.
+                    if first_sig.is_none() && timing_sensitive(&signature) {
+                        let mut confirmed = false;
+                        for _ in 0..2 {
+                            if let Outcome::Fail { signature: s2, .. } = guarded(|| eval(&case, stats)) {
+                                if s2 == signature {
+                                    confirmed = true;
+                                    break;
+                                }
+                            }
+                        }
+                        if !confirmed {
+                            stats.class(&format!("unconfirmed-timing-verdict(not-reproduced-by-the-same-case-twice):{}", signature));
+                            return Ok(());
+                        }
+                    }
                     match first_sig {
                         None => {
                             *first_sig = Some(signature.clone());
@@ -327,4 +345,9 @@ pub fn configure_log_level() -> String {
     }
     let _ = LOG_LEVEL.set(name.clone());
     name
+}
+
+/// signatures whose verdict is "something did not happen within a wall-clock wait"
+pub fn timing_sensitive(signature: &str) -> bool {
+    ["does-not-terminate", "no-response", "not-consumed-at-accept", "no-status-line", "not-serving", "connection-lost", "not-advanc", "not-answered", "did-not-", "timed-out", "timeout", "stopped-publishing", "not-converg"].iter().any(|k| signature.contains(k))
 }
